@@ -34,8 +34,8 @@ import (
 )
 
 // zzC20FilePlan is one file of a case: abstract timestamps (small integers,
-// strictly increasing over the whole case) and content lengths in bytes
-// (without the newline).
+// strictly increasing over the whole case; indices into the case's TSMap) and
+// content lengths in bytes (without the newline).
 type zzC20FilePlan struct {
 	TS  []int64 `json:"ts"`
 	Len []int   `json:"len"`
@@ -53,9 +53,9 @@ type zzC20Case struct {
 	// 1 = log position and bufferStart after every call.
 	Ops [][]int64 `json:"ops"`
 	ID  int       `json:"id"`
-	// Base and Unit map an abstract timestamp a to Base + a*Unit ns.
-	Base int64 `json:"base"`
-	Unit int64 `json:"unit"`
+	// TSMap maps an abstract timestamp a (stored or sought) to the real one,
+	// TSMap[a] ns since the epoch; strictly increasing, irregular gaps.
+	TSMap []int64 `json:"tsmap"`
 	// Seed drives the choice of navigation in mode "walk".
 	Seed int64 `json:"seed"`
 }
@@ -105,7 +105,7 @@ func zzC20Build(dir string, c *zzC20Case) (bl *zzC20Built, err error) {
 		bl.off = append(bl.off, g)
 		for i := range fp.TS {
 			g++
-			buf.Write(zzC20Line(g, c.Base+fp.TS[i]*c.Unit, fp.Len[i]))
+			buf.Write(zzC20Line(g, c.TSMap[fp.TS[i]], fp.Len[i]))
 			ends = append(ends, int64(buf.Len()-1))
 		}
 
@@ -335,7 +335,7 @@ func (r *zzC20Run) cur() (cur int) {
 	return r.bl.cursor(cf, pos)
 }
 
-func (r *zzC20Run) ns(t int64) (ns int64) { return r.c.Base + t*r.c.Unit }
+func (r *zzC20Run) ns(t int64) (ns int64) { return r.c.TSMap[t] }
 
 // edge performs one abstract action and logs the observed edge.
 func (r *zzC20Run) edge(act string, arg int64) (res string) {
